@@ -461,7 +461,12 @@ Proof.
     + change (set_last_trap (set_halt s h r) (Some c) kw) with (set_halt (set_last_trap s (Some c) kw) h r).
       rewrite (proj1 (good_exec_errres m true)).
       destruct (exec_errres_preserves m true (set_last_trap s (Some c) kw)) as [P1 P2].
-      destruct (exec_errres m true (set_last_trap s (Some c) kw)); simpl in *; left; repeat split; assumption.
+      destruct (exec_errres m true (set_last_trap s (Some c) kw)) as [u s'|c' k' s'|s'|k' s'|s'];
+        simpl in *; try (left; repeat split; assumption).
+      (* the statement lookup failed: the original error is reported *)
+      destruct kw.
+      * right. split; [destruct s'; reflexivity | reflexivity].
+      * left. repeat split; try assumption; destruct s'; cbn in *; try reflexivity; assumption.
     + left; repeat split; reflexivity.
 Qed.
 
@@ -511,14 +516,14 @@ Lemma exec_hrel m i s h r :
        (match exec m i s with
         | R _ s3 => Next s3
         | T c kw s3 => do_trap m c kw (set_trapped_addr s3 (prev_pc s3))
-        | ZD s3 => do_trap m T_DIVISION_BY_ZERO true s3
+        | ZD s3 => do_trap m T_DIVISION_BY_ZERO true (set_trapped_addr s3 (prev_pc s3))
         | X k s3 => Crash k s3
         | NI s3 => NeedInput s3
         end)
        (match exec m i (set_halt s h r) with
         | R _ s3 => Next s3
         | T c kw s3 => do_trap m c kw (set_trapped_addr s3 (prev_pc s3))
-        | ZD s3 => do_trap m T_DIVISION_BY_ZERO true s3
+        | ZD s3 => do_trap m T_DIVISION_BY_ZERO true (set_trapped_addr s3 (prev_pc s3))
         | X k s3 => Crash k s3
         | NI s3 => NeedInput s3
         end).
@@ -533,7 +538,9 @@ Proof.
     + change (set_trapped_addr (set_halt s3 h r) (prev_pc (set_halt s3 h r)))
         with (set_halt (set_trapped_addr s3 (prev_pc s3)) h r).
       rewrite <- P1, <- P2. apply (do_trap_hrel m c kw (set_trapped_addr s3 (prev_pc s3)) h r).
-    + rewrite <- P1, <- P2. apply do_trap_hrel.
+    + change (set_trapped_addr (set_halt s3 h r) (prev_pc (set_halt s3 h r)))
+        with (set_halt (set_trapped_addr s3 (prev_pc s3)) h r).
+      rewrite <- P1, <- P2. apply (do_trap_hrel m T_DIVISION_BY_ZERO true (set_trapped_addr s3 (prev_pc s3)) h r).
     + left; repeat split; assumption.
     + left; repeat split; assumption.
 Qed.
@@ -597,7 +604,9 @@ Proof.
   destruct (negb (handler_active (set_last_trap s (Some c) kw)) && _).
   - destruct (ttarget_ (set_last_trap s (Some c) kw)); try apply ext_refl.
     pose proof (proj2 (good_exec_errres m true) (set_last_trap s (Some c) kw)) as H.
-    destruct (exec_errres m true (set_last_trap s (Some c) kw)); exact H.
+    destruct (exec_errres m true (set_last_trap s (Some c) kw)) as [u s0|c0 k0 s0|s0|k0 s0|s0];
+      try exact H.
+    destruct kw; destruct s0; exact H.
   - destruct kw; apply ext_refl.
 Qed.
 
@@ -623,14 +632,14 @@ Proof.
                 (match exec m i (set_pc (set_prev_pc s (pc s)) (pc (set_prev_pc s (pc s)) + size)) with
                  | R _ s3 => Next s3
                  | T c kw s3 => do_trap m c kw (set_trapped_addr s3 (prev_pc s3))
-                 | ZD s3 => do_trap m T_DIVISION_BY_ZERO true s3
+                 | ZD s3 => do_trap m T_DIVISION_BY_ZERO true (set_trapped_addr s3 (prev_pc s3))
                  | X k s3 => Crash k s3
                  | NI s3 => NeedInput s3
                  end)))).
       { pose proof (exec_ext m i (set_pc (set_prev_pc s (pc s)) (pc (set_prev_pc s (pc s)) + size))) as H.
         destruct (exec m i _) as [u s3 | c kw s3 | s3 | k s3 | s3]; simpl in *; try exact H.
         - eapply ext_trans; [exact H | apply (do_trap_ext m c kw (set_trapped_addr s3 (prev_pc s3)))].
-        - eapply ext_trans; [exact H | apply do_trap_ext]. }
+        - eapply ext_trans; [exact H | apply (do_trap_ext m T_DIVISION_BY_ZERO true (set_trapped_addr s3 (prev_pc s3)))]. }
       destruct i; try (rewrite end_check_events; exact H).
       destruct (nthZ (m_literals m) idx); [rewrite end_check_events; exact H | apply ext_refl].
 Qed.
